@@ -245,13 +245,18 @@ def cross_C20(cfgs, add):
         if len(lst) < 2:
             continue
         ref_cfg, ref = lst[0]
-        reffp = {p: skeleton(b) for p, b in ref.bodies.items() if p.startswith("repr::") or p.startswith("LeanString::")}
+        core_ = lambda p: p.startswith("repr::") or p.startswith("LeanString::")
+        # trait impls and nested items too (`<SetLenOnDrop as Drop>::drop`, closures): a feature may add
+        # impls, so these are compared where both feature sets have them
+        nested = lambda p: not core_(p) and ("repr::" in p or "LeanString" in p) and "features::" not in p
+        reffp = {p: skeleton(b) for p, b in ref.bodies.items() if core_(p) or nested(p)}
         for cfg, F in lst[1:]:
             diffs = []
             for p, fp in reffp.items():
                 b = F.bodies.get(p)
                 if b is None:
-                    diffs.append(p + " (missing)")
+                    if core_(p):
+                        diffs.append(p + " (missing)")
                 elif skeleton(b) != fp:
                     diffs.append(p)
             ncmp += len(reffp)
